@@ -183,7 +183,7 @@ def gen_random(rng):
         args += ["--sort-by", rng.choice([".k", ".k=DESC", ".v", ".v DESC", ".g", ".s=DESC", "(len .arr)", "1", ".k=asc"])]
     combos = []
     for _ in range(12):
-        combos.append((rng.randint(0, 6), rng.choice([None, 0, 1, 2, 3, 4, 5, 6, 40]), rng.choice(MODES)))
+        combos.append((rng.randint(0, 6), rng.choice([None, 0, 1, 2, 3, 4, 5, 6, 40, 2 ** 64 - 1, 2 ** 63]), rng.choice(MODES)))
     unit = {"kind": "random", "input": records.to_input(recs, rng), "args": args, "combos": combos, "groupkey": groupkey}
     if rng.random() < 0.3:
         texts = [jm.dumps(r).encode() for r in recs]
